@@ -38,6 +38,16 @@ THEOREMS = {
     "C02": ["specDemand_eq", "step_refines_spec", "nextStep_econ"],
     "C19": ["lifecycle_shift", "recoverOne_shift", "eventsPost_shift", "eventsPre_shift", "shift_step", "overprod_identity_at_rest",
             "shift_step_early", "shift_run_partial"],
+    "C12": ["Impact.distribute_sum", "Impact.distribute_pos", "Impact.distribute_equal", "Impact.distribute_proportional", "Impact.distribute_support",
+            "Impact.reject_nonpositive_impact", "Impact.reject_empty_selection", "Impact.reject_missing_weight", "Impact.reject_negative_entry",
+            "Impact.reject_negative_weight", "Impact.regions_sectors_sum", "Impact.regions_sectors_product"],
+    "C15": ["Labels.canon_sorted", "Labels.canon_perm_self", "Labels.canon_perm", "Labels.values_perm", "Labels.canonTable_perm",
+            "Labels.widen_perm", "Labels.widen_get", "Labels.ingest_factors"],
+    "C16": ["Records.rows_faithful", "Records.rows_fill", "Records.untracked_never_written", "Records.storage_independent",
+            "Records.early_stop_intact", "Records.crash_row", "Records.phase_order", "Records.guards_complete",
+            "Records.helpers_write_own_row", "Records.specs_bijective", "Records.writes_after_their_phase"],
+    "C17": ["Storage.run_function", "Storage.isolation", "Storage.fresh_defaults_distinct", "Storage.shared_default_breaks_isolation",
+            "Storage.ingest_preserves", "Storage.event_reusable", "Storage.defaults_safe"],
     "C14": ["alpha_bounds", "alpha_increase_only_if_scarce", "alpha_increase_amount", "alpha_no_increase_when_met",
             "alpha_drift_to_base"],
 }
@@ -97,7 +107,14 @@ INIT_OBLIGATIONS = {"C01": ["mkparams"], "C07": ["mkparams"], "C08": ["trackerin
 PAIRED = {"C10": ["c10_prefix"], "C11": ["c11_order"], "C13": ["c13_units"], "C18": ["c18_variants", "c18_orders"],
           "C19": ["c19_shift"], "C17": ["c17_determinism"]}
 
+# properties whose Lean side includes tables regenerated from the source on every run
+GEN = {"C16": True, "C17": True}
+
 NONTRIVIAL = {
+    "C12": ("weights", "non-uniform weights or an invalid input"),
+    "C15": ("permuted", "a permutation different from the identity on every labelled axis"),
+    "C16": ("tracked", "a tracked record with at least one simulated row"),
+    "C17": ("alive", "a history with at least two simulations alive"),
     "C02": ("active", "a step with shortage, rationing, a stock change or a ledger change"),
     "C19": ("after", "a step at or after the first occurrence"),
     "C09": ("recovering", "a step in which a recovering event's damage changes"),
@@ -123,6 +140,16 @@ _NOTE = ("Trusted: Lean kernel; the hand-written model and theorem statements; t
          "Not verified: float rounding, NumPy/pandas primitives, overflow.")
 
 CLAIMS = {
+    "C12": {"text": "Theorems distribute_sum, distribute_pos, distribute_equal, distribute_proportional, distribute_support, regions_sectors_sum / _product and the rejections (non-positive scalar, empty selection, missing weight, negative entry or weight), for every scalar, affected set and weight vector (association lists of any length). The three constructors are run on generated labelled inputs (equal, exact, superset-indexed, unsorted, unnormalised weights; one invalid feature at a time) and compared with the model's executable definitions.",
+            "note": _NOTE, "technique": "Lean 4 theorems + differential correspondence of the three impact constructors"},
+    "C15": {"text": "Theorems canon_perm (every ordering of a labelled input has the same canonical form), canon_sorted, canon_perm_self, values_perm, canonTable_perm (rows and columns of a table), widen_perm / widen_get (label-based widening), ingest_factors (anything computed from the canonical form is independent of the order). Partial: bit-identity is a statement about floats; it follows only if the implementation does no arithmetic before canonicalising, which is what the check establishes dynamically: arrays ingested from permuted inputs must equal the canonical arrays exactly, and whole runs on permuted inputs are compared bit for bit.",
+            "note": _NOTE, "technique": "Lean 4 theorems (partial, see text) + exact ingestion correspondence + bitwise paired runs on permuted inputs"},
+    "C16": {"text": "Theorems on the record-layer model: rows_faithful, rows_fill, untracked_never_written, storage_independent (the log does not depend on which records are files), early_stop_intact, crash_row; and on tables REGENERATED from the source on every run: phase_order (the statements of next_step, in order), guards_complete (each write guard tests its own name against files then memory), helpers_write_own_row, specs_bijective, writes_after_their_phase. Partial: that memmap files read back equal the memory and that the JSON artefacts describe the run is library / OS behaviour, checked by reading back on generated runs (record subsets x register_stocks x loop / manual x stopping point).",
+            "note": _NOTE + " The translator harness/translate.py (Python ast) is trusted to extract the statements of next_step and the record tables faithfully; unknown syntax is emitted as `unknown` items, which makes the theorems fail.",
+            "technique": "Lean 4 theorems on a record-layer model + `rfl`/`decide` theorems on tables regenerated from the source by a translator + read-back of every record and JSON artefact"},
+    "C17": {"text": "Theorems run_function (the model is a function of its inputs), isolation (on a key -> file world: with pairwise distinct keys a simulation reads back exactly its own rows whatever else is constructed or run), fresh_defaults_distinct, shared_default_breaks_isolation (witness of the repaired defect), ingest_preserves and event_reusable (copy-before-mutate leaves caller objects unchanged), defaults_safe (`decide` on the default-argument table REGENERATED from the source: no default is a call evaluated at definition time, no mutable default is mutated). Partial: that the Python code follows the copying discipline and allocates keys per instance is a fact about object identity at run time, established only dynamically (deep snapshots of caller objects, interleaved histories of live simulations compared bitwise with isolated runs, Event reuse).",
+            "note": _NOTE + " The translator harness/translate.py is trusted for the default-argument table.",
+            "technique": "Lean 4 theorems on storage / ownership models + `decide` on a regenerated default-argument table + dynamic isolation and snapshot checks"},
     "C02": {"text": "Theorem step_refines_spec: whatever the code-shaped model computes in one step satisfies ArioSpec, the documented ARIO equations written one per field with sums and no masks, caches or branches (overproduction rule, capacity, optimal and actual production with the tightest real input, proportional rationing, inventory resupply with the permitted skip, unmet final demand, reconstruction deliveries, order rule with both share variants); nextStep_econ ties it to the whole step, specDemand_eq to the cached demand. The tie to the code is the correspondence itself: every phase, every output, every cell (delivery matrix via the hook) on every explored step, ties of the threshold tests accepted; plus an independent NumPy transliteration of the documentation as oracle.",
             "note": _NOTE, "technique": "Lean 4 refinement theorem (code-shaped model vs equation-shaped spec) + per-step correspondence of all six phases"},
     "C19": {"text": "Theorems shift_step (from the third step on, one step of the delayed simulation is the delayed step: the event layer only sees t - occ), shift_step_early + overprod_identity_at_rest (for the first two steps the same holds wherever the overproduction module is the identity, which is the case at rest), shift_run_partial (runs from any state at or after the third step), plus the commuting lemmas of each event phase. Partial: the whole-run statement from t = 0 (chaining these with C01 and C10's prefix theorem) is not proved; it is checked on paired runs of the real code (every event delayed by k = 1..12, first occurrences 1..3).",
